@@ -848,7 +848,8 @@ def coq_str(s):
     return '"%s"' % s.replace('"', '""')
 
 
-def analyse(repo="/repo"):
+def analyse(repo=None):
+    repo = repo or os.environ.get("VERIF_REPO", "/repo")
     an = Analyzer(repo)
     rounds = an.run()
     facts = {
@@ -904,7 +905,7 @@ def emit(facts):
     return "\n".join(L) + "\n"
 
 
-def generate(out, repo="/repo"):
+def generate(out, repo=None):
     facts = analyse(repo)
     text = emit(facts)
     old = open(out).read() if os.path.exists(out) else None
@@ -917,5 +918,5 @@ def generate(out, repo="/repo"):
 if __name__ == "__main__":
     import json
     import sys
-    fx = analyse(sys.argv[1] if len(sys.argv) > 1 else "/repo")
+    fx = analyse(sys.argv[1] if len(sys.argv) > 1 else None)
     print(json.dumps(fx, indent=1))
